@@ -51,6 +51,9 @@ func healerScenarios(quick bool) []Scenario {
 		}
 		out = append(out, Scenario{Files: []string{"=x", "=yy"}, Symlink: true, Damage: "last", Consumer: "healer", Cap: 1, Cancel: cancel, Bound: lastBound})
 	}
+	// more wounded files than any fixed-size queue between the wound loop and the healing
+	// goroutine holds once it is scaled to one slot (three files, all damaged)
+	out = append(out, Scenario{Files: []string{"=x", "=yy", "=zzz"}, Damage: "all", Consumer: "healer", Cap: 1, Bound: b(0, 1)})
 	return out
 }
 
